@@ -154,6 +154,81 @@ func c11Vars(d *adoc.Doc) []VarSpec {
 	}
 }
 
+// c11Wrappers compares the three ExecAs* entry points with Exec on one
+// namespaced document under every binding environment.
+func c11Wrappers(c *run.Check, envs []EnvSpec, exprs []refExpr) {
+	d := adoc.NewDoc()
+	r := adoc.ENS(adoc.URI_U, "p", "a")
+	r.Add(adoc.ANS(adoc.URI_U, "p", "x", "1"))
+	r.Add(adoc.A("x", "2"))
+	r.Add(adoc.ENS(adoc.URI_V, "q", "a", adoc.T("3")))
+	r.Add(adoc.E("a", adoc.T("4")))
+	r.Add(adoc.E("b"))
+	d.Root.Add(r)
+	doc := d.Finish()
+	b, err := impl.Bind(doc)
+	if err != nil {
+		c.Set("wrapper_family_problem", err.Error())
+		c.Exhaustive = false
+		return
+	}
+	type wcase struct {
+		Kind string  `json:"kind"`
+		Expr string  `json:"expr"`
+		Env  EnvSpec `json:"env"`
+		Why  string  `json:"why"`
+	}
+	for _, env := range envs {
+		env.Vars = c11Vars(doc)
+		env.rec = &recorder{}
+		for _, e := range exprs {
+			g, _ := BuildImpl(e.Text)
+			if g == nil {
+				continue
+			}
+			settings := env.ImplSettings(b)
+			res, rerr := xsel.Exec(b.Root, g, settings...)
+			c.Evaluations.Add(4)
+			s, serr := xsel.ExecAsString(b.Root, g, env.ImplSettings(b)...)
+			n, nerr := xsel.ExecAsNumber(b.Root, g, env.ImplSettings(b)...)
+			ns, nserr := xsel.ExecAsNodeset(b.Root, g, env.ImplSettings(b)...)
+			why := ""
+			switch {
+			case rerr != nil:
+				if serr == nil || nerr == nil || nserr == nil {
+					why = fmt.Sprintf("Exec fails (%v) but ExecAsString/ExecAsNumber/ExecAsNodeset errors are %v / %v / %v", rerr, serr, nerr, nserr)
+				}
+			case res == nil:
+				// judged by C15
+			default:
+				if serr != nil || s != res.String() {
+					why = fmt.Sprintf("ExecAsString = %q, %v but Exec gives %q", s, serr, res.String())
+				} else if nerr != nil || !(n == res.Number() || (n != n && res.Number() != res.Number())) {
+					why = fmt.Sprintf("ExecAsNumber = %v, %v but Exec gives %v", n, nerr, res.Number())
+				} else if rs, isSet := res.(xsel.NodeSet); isSet {
+					if nserr != nil || len(ns) != len(rs) {
+						why = fmt.Sprintf("ExecAsNodeset = %d nodes, %v but Exec gives %d nodes", len(ns), nserr, len(rs))
+					} else {
+						for i := range rs {
+							if rs[i] != ns[i] {
+								why = "ExecAsNodeset returns other nodes than Exec"
+							}
+						}
+					}
+				} else if nserr == nil {
+					why = "ExecAsNodeset accepts a result that is not a node-set"
+				}
+			}
+			if why != "" {
+				c.Violation(wcase{Kind: "wrappers", Expr: e.Text, Env: env, Why: why}, fmt.Sprintf("[wrappers] %s under %v: %s", e.Text, env.NS, why))
+				return
+			}
+		}
+	}
+	c.Distinct("wrapper family")
+	c.Set("wrapper_family", "ExecAsString/ExecAsNumber/ExecAsNodeset against Exec for every expression under every environment on one namespaced document")
+}
+
 // c11Reserved: prefixes and local names that spell axis names / node types.
 func c11ReservedDocs() []*adoc.Doc {
 	names := []string{"a", "child", "self", "text", "descendant", "node"}
@@ -260,6 +335,12 @@ func C11(c *run.Check) {
 		r.extra = c11Logs
 		ctxOK := func(nd *adoc.Node) bool { return nd.Kind == adoc.Root || (ei%3 == 2 && nd.Kind == adoc.Elem) }
 		r.runGrid(len(jobs), func(i int) *adoc.Doc { return adoc.Instantiate(jobs[i].f, jobs[i].deco) }, exprs, ctxOK)
+	}
+	// the convenience entry points ExecAsString / ExecAsNumber / ExecAsNodeset take
+	// the same bindings as Exec: under every environment their answers must be
+	// Exec's answer converted (and an error exactly when Exec gives one)
+	if c.Violations() == 0 {
+		c11Wrappers(c, envs, exprs)
 	}
 	// prefixes and local names spelled like axis names / node types
 	{
